@@ -261,8 +261,13 @@ def run(ctx) -> None:
     red_axes = {norm_text(c.args[1]) for _, c in reds}
     okr = len(red_axes) == 1 and isinstance(gen.target, ast.Tuple) and cond == f"{gen.target.elts[1].id}notin{list(red_axes)[0]}"
     # the filter is applied only when the reduced axes are dropped
-    parents = [i for i in walk_no_nested(red.node) if isinstance(i, ast.If) and any(compr[0] is x for s in i.body for x in ast.walk(s))]
-    okk = bool(parents) and norm_text(parents[0].test).replace(" ", "") == "notkeepdims"
+    in_body = [i for i in walk_no_nested(red.node) if isinstance(i, ast.If) and any(
+        compr[0] is x for s in i.body for x in ast.walk(s))]
+    in_else = [i for i in walk_no_nested(red.node) if isinstance(i, ast.If) and any(
+        compr[0] is x for s in i.orelse for x in ast.walk(s))]
+    parents = in_body or in_else
+    okk = (bool(in_body) and norm_text(in_body[-1].test).replace(" ", "") == "notkeepdims") or (
+        not in_body and bool(in_else) and norm_text(in_else[-1].test).replace(" ", "") == "keepdims")
     kd = {norm_text(kwarg(c, "keepdims")) for _, c in reds}
     ctx.check(okr and okk and kd == {"keepdims"}, "R-LOCKSTEP", red.qualname, red.where,
               "metadata of reduced axes dropped iff not keepdims, array reduced over the same axes with the same keepdims",
